@@ -46,6 +46,9 @@ type c09Doc struct {
 func c09XMLValid(b []byte) bool {
 	d := xml.NewDecoder(bytes.NewReader(b))
 	d.Strict = true
+	// any declared encoding is read as bytes: only well-formedness is judged (without this, encoding/xml rejects
+	// `encoding='ISO-8859-1'` but overlooks the same declaration written with spaces around `=`)
+	d.CharsetReader = func(_ string, r io.Reader) (io.Reader, error) { return r, nil }
 	depth := 0
 	for {
 		t, err := d.Token()
@@ -62,6 +65,20 @@ func c09XMLValid(b []byte) bool {
 			depth--
 		}
 	}
+}
+
+// encoding/xml is lenient about `<! … >` directives (it even accepts nested angle brackets); a mutated document that only
+// it accepts is not evidence of well-formed input: require that every `<!` starts a comment, CDATA section or DOCTYPE
+func c09XMLNoOddDirective(b []byte) bool {
+	for i := 0; i+1 < len(b); i++ {
+		if b[i] == '<' && b[i+1] == '!' {
+			r := b[i+2:]
+			if !(bytes.HasPrefix(r, []byte("--")) || bytes.HasPrefix(r, []byte("[CDATA[")) || bytes.HasPrefix(r, []byte("DOCTYPE"))) {
+				return false
+			}
+		}
+	}
+	return true
 }
 
 // c09CSSValid: strings and comments terminated, (), [], {} balanced outside strings/comments.
@@ -299,11 +316,13 @@ func init() {
 					report("output is not valid JSON (encoding/json) although the input is", "")
 				}
 			case "text/xml", "image/svg+xml":
-				if c09XMLValid(d.data) && !c09XMLValid(o) {
+				if c09XMLValid(d.data) && c09XMLNoOddDirective(d.data) && !c09XMLValid(o) {
 					report("output is not well-formed XML (encoding/xml) although the input is", "")
 				}
 			case "text/css":
-				if c09CSSValid(d.data) && !c09CSSValid(o) {
+				// only for unmutated style sheets: on byte-mutated garbage (stray quotes pairing up across rules) the crude
+				// balance checker's verdict on the input means nothing
+				if !mutated && c09CSSValid(d.data) && !c09CSSValid(o) {
 					report("output has unbalanced blocks/strings/comments although the input is balanced", "")
 				}
 			case "text/html":
